@@ -243,14 +243,36 @@ func (gl GitLabReporter) Delete(ctx context.Context, dst any, comment ExistingCo
 	return err
 }
 
-func (gl GitLabReporter) IsEqual(_ any, existing ExistingComment, pending PendingComment) bool {
+func (gl GitLabReporter) IsEqual(dst any, existing ExistingComment, pending PendingComment) bool {
 	if existing.path != pending.path {
 		return false
 	}
-	if existing.line != pending.line {
+	if existing.line != gl.commentLine(dst, pending) {
 		return false
 	}
 	return strings.Trim(existing.text, "\n") == strings.Trim(pending.text, "\n")
+}
+
+// commentLine returns the line an existing comment for this problem is listed
+// with. Comments on removed lines are created on (and listed with) the old
+// side line number, which is not the line the problem is reported on as soon
+// as anything above it was added or removed.
+func (gl GitLabReporter) commentLine(dst any, pending PendingComment) int {
+	if pending.anchor != checks.AnchorBefore {
+		return pending.line
+	}
+	mr, ok := dst.(gitlabMR)
+	if !ok {
+		return pending.line
+	}
+	diff := getDiffForPath(mr.diffs, pending.path)
+	if diff == nil {
+		return pending.line
+	}
+	if dl, ok := diffLineFor(parseDiffLines(diff.Diff), pending.line); ok {
+		return dl.old
+	}
+	return pending.line
 }
 
 func (gl GitLabReporter) CanDelete(ExistingComment) bool {
